@@ -4,6 +4,7 @@ import (
 	"crypto/tls"
 	"github.com/emersion/go-sasl"
 	"io"
+	"strconv"
 )
 
 // verif_C19_line: one command line of up to L arbitrary 7-bit octets (NUL, CR,
@@ -496,4 +497,48 @@ func verif_C19_threshold_starttls_stub() {
 		verifAssert(last.code == 500 && vc.closed, "C19.threshold-starttls-closing-notice")
 	}
 	verifReach("C19.threshold-starttls-end")
+}
+
+// verif_C19_bdat_states: BDAT in every state it can arrive in - un-greeted,
+// greeted, MAIL, MAIL+RCPT - with a size of 0, within or over the size limit,
+// with and without LAST, SMTP and LMTP, a limit configured or not: no crash, no
+// recovered panic, nothing logged, well-formed replies.
+func verif_C19_bdat_states() {
+	lmtp := nondetBool()
+	state := verifChoice(4)
+	size := []int{0, 3, 9}[verifChoice(3)]
+	last := nondetBool()
+	limited := nondetBool()
+	be := &vbackend{lmtpSession: lmtp && nondetBool()}
+	s, lg := verifServer(be)
+	s.LMTP = lmtp
+	if limited {
+		s.MaxMessageBytes = 5
+	}
+	in := ""
+	if state >= 1 {
+		if lmtp {
+			in += "LHLO c\r\n"
+		} else {
+			in += "EHLO c\r\n"
+		}
+	}
+	if state >= 2 {
+		in += "MAIL FROM:<s@v>\r\n"
+	}
+	if state >= 3 {
+		in += "RCPT TO:<r@v>\r\n"
+	}
+	in += "BDAT " + strconv.Itoa(size)
+	if last {
+		in += " LAST"
+	}
+	in += "\r\n" + "abcdefghi"[:size] + "NOOP\r\n"
+	vc, _, err := verifServe(s, []byte(in), io.EOF)
+	_, wf := verifParseReplies(vc.out)
+	verifObserve("c19bdat", lmtp, state, size, last, limited, wf, lg.lines)
+	verifAssert(err == nil && lg.lines == 0 && verifPanicEvents() == 0, "C19.bdat-states-no-crash")
+	verifAssert(wf, "C19.bdat-states-wellformed")
+	verifAssert(verifGoroutinesAlive() == 0, "C19.bdat-states-no-goroutine-left")
+	verifReach("C19.bdat-states-end")
 }
